@@ -186,7 +186,7 @@ type faultCase struct {
 }
 
 func prog(body string) string {
-	return "package main\n\nimport \"host\"\n\nvar _ = host.Ident\n\ntype U struct{ A int }\ntype T struct{ A int; P *U }\n\nfunc unbounded(n int) int { return unbounded(n+1) + 1 }\n\nfunc namedResult() (x int) {\n\tdefer func() {\n\t\tr := recover()\n\t\tif r != nil {\n\t\t\tx = 7\n\t\t}\n\t}()\n\tpanic(\"p\")\n}\n\nfunc main() {\n" + body + "\n}\n"
+	return "package main\n\nimport \"host\"\n\nvar _ = host.Ident\n\ntype U struct{ A int }\ntype T struct{ A int; P *U }\n\nfunc deep(n int) int { if n == 0 { return 0 }; return deep(n-1) + 1 }\n\nfunc namedResult() (x int) {\n\tdefer func() {\n\t\tr := recover()\n\t\tif r != nil {\n\t\t\tx = 7\n\t\t}\n\t}()\n\tpanic(\"p\")\n}\n\nfunc main() {\n" + body + "\n}\n"
 }
 
 var intKinds = []string{"int", "int8", "int16", "int32", "int64", "uint", "uint8", "uint16", "uint32", "uint64"}
@@ -261,7 +261,10 @@ func faultTable() []faultCase {
 	add("CallNative/callback-panics", "host.Call(func() { panic(\"cb\") })", pe+"cb$")
 	add("Go/nil-func", "var f func()\ngo f()", "^error:fatal error: go of nil func value$")
 	add("Range/nil-array-pointer", "var p *[2]int\nfor i, x := range p { println(i, x) }", pe+"runtime error: invalid memory address or nil pointer dereference$")
-	add("Call/unbounded-recursion", "println(unbounded(0))", pe)
+	// recursion deeper than the initial register stacks (512): the stacks grow (fix 06a16cd); unbounded
+	// recursion is not run: it exhausts the memory of the process, as under gc
+	add("Call/deep-recursion", "println(deep(5000))", "^nil$")
+	add("Range/nil-array-pointer-index-only", "var p *[2]int\nfor i := range p { println(i) }", "^nil$")
 	add("Recover/named-result-assigned-under-nil-test", "println(namedResult())", "^nil$")
 	add("Append/func-literal", "var fs []func()\nfs = append(fs, func() {})\nprintln(len(fs))", "^nil$")
 	add("Defer-native/panics-while-unwinding", "defer host.PanicString()\npanic(\"a\")", pe)
@@ -329,10 +332,7 @@ func faultTable() []faultCase {
 	mark("Defer-native/panics-while-unwinding", "host-panic:deferred-native-call-while-unwinding", "nil pointer dereference")
 	mark("Defer-native/stop-while-unwinding", "host-panic:deferred-native-call-while-unwinding", "nil pointer dereference")
 	mark("Defer-native/panics-at-return", "host-panic:deferred-native-panic-at-return", "native panic")
-	mark("Store/nil-pointer", "host-panic:nil-pointer-store", "reflect.Value.Set on zero Value")
 	mark("CallNative/callback-panics", "host-panic:callback-panic-is-fatal", "cb")
-	mark("Range/nil-array-pointer", "host-panic:range-nil-array-pointer", "reflect.Value.Len on zero Value")
-	mark("Call/unbounded-recursion", "host-panic:call-stack-overflow", "index out of range [")
 	mark("Recover/named-result-assigned-under-nil-test", "host-panic:recover-named-result-IsNil", "reflect.Value.IsNil on string Value")
 	mark("Append/func-literal", "host-panic:append-func-literal-callable", "*runtime.callable is not assignable to type func()")
 
@@ -361,7 +361,6 @@ func faultTable() []faultCase {
 	mark("Template/markdown-partial-without-converter", "host-panic:no-markdown-converter", "no Markdown convert available")
 	addT("Template/default-global-in-macro", tmplRun{files: one("i.html", "{% macro M %}{{ x default 5 }}{% end %}{{ M() }}"), name: "i.html",
 		globals: native.Declarations{"x": (*int)(nil)}, vars: map[string]any{"x": 7}}, "^nil$")
-	mark("Template/default-global-in-macro", "host-panic:default-global-in-macro", "index out of range [0] with length 0")
 	raw("Text/write-error", "OpText", "out", "", false)
 	raw("Show/write-error", "OpShow", "out", "", false)
 	raw("Show/unshowable-html", "OpShow", "out", "", false)
@@ -396,7 +395,6 @@ func faultTable() []faultCase {
 	add("HostIndex/program-slice-of-host-structs", "var d host.Deep\ni := 2\nprintln(d.S[i].Name)", pe+"runtime error: index out of range \\[2\\] with length 0$")
 	addT("Call/imported-recursive-macro-depth-600", tmplRun{files: scriggo.Files{"i.html": []byte(`{% import "m.html" %}[{{ Count(600) }}]`),
 		"m.html": []byte(`{% macro Count(n int) %}{% if n > 0 %}{{ Count(n-1) }}{% end %}{% end %}`)}, name: "i.html"}, "^nil$")
-	mark("Call/imported-recursive-macro-depth-600", "host-panic:call-stack-overflow", "index out of range [512]")
 	t = append(t, faultCase{entry: "Context/cancelled", kind: "program", src: prog("for {\n}"), want: "^ctx:context canceled$", ctxCancel: true})
 	return t
 }
